@@ -42,8 +42,13 @@ class C16(Prop):
         "DAG with deterministic job functions: SAFETY at full generality (for every well-formed DAG and every history of "
         "successful executions and data losses -- any failures, phases, counts, rollback sets, orders -- every existing "
         "output equals the failure-free output, C16_same_outputs); the failure-free run is total and a fixpoint of the job "
-        "functions; LIVENESS partially (from any reachable state a rollback re-executing the producers of unavailable "
-        "inputs yields the failure-free output and only adds values, C16_rollback_completes_partial); and a refutation of "
+        "functions; LIVENESS partially: from any reachable state a rollback re-executing the producers of unavailable "
+        "inputs yields the failure-free output and only adds values (C16_rollback_completes_partial); with the retry budget "
+        "(C16_completes_partial): for every history of failures with closed rollback sets in which each job's first execution "
+        "plus the re-executions demanded of it -- by its own failures and by its consumers' -- stay within the limit, no "
+        "rollback is refused, versions are exactly 1 + demand, and finishing without further failures yields the failure-free "
+        "outputs; that budget is tight (C16_budget_is_tight) and a granted closed rollback restores the failed job "
+        "(C16_rollback_recovers); and a refutation of "
         "the text's completion clause as stated (C16_completes_refuted: the retry counter counts re-executions, so jobs "
         "that each fail fewer times than the limit can still exhaust it). Tied to /repo by running real workflows "
         "(pipelines 1..5, loops 0..6 iterations, scatter/gather width 1..12 depth 1..2, diamonds 2..4; primitive and file data; faults in "
@@ -75,7 +80,7 @@ class C16(Prop):
                    "non-file token values are never lost",
                    "which jobs a rollback re-executes is not constrained by the model (any history)")
     MAX_WORKERS = 8
-    CASE_TIMEOUT = 90
+    CASE_TIMEOUT = 200
     SHARD_TIMEOUT = 900
     COQ_SHARD = 20
 
